@@ -67,9 +67,12 @@ def bad_values(e, rng):
         for ln in sorted({0, 1, n - 1, n + 1, n + 2}):
             if ln >= 0 and ln != n:
                 out.append(repr(bytes((0x41 + j) % 256 for j in range(ln))))
-        out += ["5", str(n), "1.5", "None", "[1, 2, 3]", repr([0] * n), repr("z" * n), repr("z" * (n + 1)), "True", "{}", repr(bytes(n))]
+        out += ["5", str(n), "1.5", "None", "[1, 2, 3]", repr([0] * n), repr("z" * n), repr("z" * (n + 1)), "True", "{}", repr(bytes(n)),
+                # buffer objects: the right number of ITEMS but two / four bytes each, and plain ones of the right and the wrong length
+                "memoryview(%r).cast('H')" % bytes(2 * n), "memoryview(%r).cast('I')" % bytes(4 * n), "memoryview(%r)" % bytes(n), "bytearray(%r)" % bytes(n + 1)]
     elif kind == "R":
-        out += ["'1.0'", "None", "b'\\x00\\x00\\x00\\x00'", "[1.0]", "nan", "inf", "-inf", "-0.0", "1e39" if n == 4 else "1e400", "10 ** 4400", "True", "{}", "7"]
+        out += ["'1.0'", "None", "b'\\x00\\x00\\x00\\x00'", "[1.0]", "nan", "inf", "-inf", "-0.0", "1e39" if n == 4 else "1e400", "10 ** 4400", "True", "{}", "7",
+                "-85", "2 ** 40" if n == 8 else "2 ** 24", "-(2 ** 33)" if n == 8 else "-(2 ** 20)"]
     elif kind == "A":
         out += ["[0] * %d" % (n - 1) if False else repr([0] * (n - 1)), repr([0] * (n + 1)), "[]", repr([256] + [0] * (n - 1)), repr([-1] + [0] * (n - 1)),
                 repr(["a"] + [0] * (n - 1)), "5", "None", repr(bytes(n)), "(0,)"]
